@@ -4,6 +4,16 @@ import PqlModel.Props.C10Linecol
 import PqlModel.Props.C10Failed
 import PqlModel.Props.C10Extent
 import PqlModel.Props.C10Compile
+import PqlModel.Props.C10SpanIR
+import PqlModel.Props.C10SpanIRNodes
+import PqlModel.Props.C10LinecolIR
+import PqlModel.Props.C07OperatorIRTreesA
+import PqlModel.Props.C07OperatorIRTreesB
+import PqlModel.Props.C07OperatorIRSort
+import PqlModel.Props.C07OperatorIRExtend
+import PqlModel.Props.C07OperatorIRProject
+import PqlModel.Props.C07OperatorIRLet
+import PqlModel.Props.C07OperatorIRTabular
 #print axioms Pql.C10.C10_union_lists_every_field
 #print axioms Pql.C10.C10_model_matches_span_table
 #print axioms Pql.C10.C10_unions_contains
@@ -39,3 +49,24 @@ import PqlModel.Props.C10Compile
 #print axioms Pql.Glue.errSpanOK_linecol
 #print axioms Pql.Glue.C10_implicit_name_needs_parse
 #print axioms Pql.Glue.C10_compile_error_needs_error_free
+#print axioms Pql.AstIR.nullSpan_ir
+#print axioms Pql.AstIR.newSpan_ir
+#print axioms Pql.AstIR.indexSpan_ir
+#print axioms Pql.AstIR.isValid_ir
+#print axioms Pql.AstIR.len_ir
+#print axioms Pql.AstIR.C10_unionSpans_ir
+#print axioms Pql.AstIR.C10_unionSpans_interp
+#print axioms Pql.AstIR.C10_nodeSpan_ir
+#print axioms Pql.AstIR.C10_nodeSliceSpan_ir
+#print axioms Pql.AstIR.spanMethod_eq
+#print axioms Pql.AstIR.C10_spanOf_ir
+#print axioms Pql.AstIR.C10_spanOf_ir_nil_iface
+#print axioms Pql.AstIR.C10_spanOf_ir_no_fuel
+#print axioms Pql.AstIR.C10_fields_match_structs
+#print axioms Pql.LexIR.linecol_parser_ir
+#print axioms Pql.LexIR.linecol_pql_ir
+#print axioms Pql.LexIR.C10_linecol_copies_same_ir
+#print axioms Pql.LexIR.C10_linecol_copies_agree
+#print axioms Pql.LexIR.C10_linecol_ir
+#print axioms Pql.LexIR.C10_linecol_pql_ir
+#print axioms Pql.LexIR.C10_linecol_ir_panics
